@@ -37,7 +37,7 @@ func ruleCNorm(c *core.Ctx) {
 				for _, hk := range kinds {
 					low, high := normSide{lo, lk}, normSide{hi, hk}
 					type outT struct {
-						res                    absint.Tuple
+						res                      absint.Tuple
 						aMin, aEMin, aMax, aEMax *absint.Atom
 					}
 					runs, complete := absint.Explore(c.Prog, 64, nil, func(m *absint.Machine) any {
@@ -205,8 +205,13 @@ func C05(c *core.Ctx) {
 		"minimum/maximum ∈ {absent, symbolic number} × exclusiveMinimum/exclusiveMaximum ∈ {absent, true, false, symbolic number, non-number} × the relative order " +
 		"(<,=,>) of each numeric exclusive bound and its inclusive partner; the function reads its arguments only through nil tests, a type switch and </>, so the order " +
 		"abstraction is exact and the enumeration exhaustive. Each result is compared with the oracle 'intersection of the stated bounds; the tighter one wins; exclusive wins a tie; " +
-		"the boolean form modifies minimum/maximum'. Lower and upper side are enumerated jointly, so cross-talk between the sides is visible."
+		"the boolean form modifies minimum/maximum'. Lower and upper side are enumerated jointly, so cross-talk between the sides is visible. " + engineAText +
+		"C05 family: integer and number properties in 3 (quick) / 6 (thorough) positions x all subsets of {minimum, maximum, multipleOf} x exclusiveMinimum in {absent,true,false,number} x exclusiveMaximum in " +
+		"{absent,number} (quick) / all four (thorough), every relative order of a numeric exclusive bound and its inclusive partner being a separate world: the emitted branches must compare with the bound the " +
+		"normalisation oracle selects, with < / <= per exclusivity, nil-guarded iff pointer, and no limit may pass through a lossy conversion (A-REJ:lossy). Not decided: math.Mod's 1e-10 tolerance."
 	c.Exhaustive = true
 	c.Trust("go/ssa lowering of the function; the summaries listed in trusted_base are not needed by this function")
 	ruleCNorm(c)
+	c05Families(c)
+	c.Floor("families", c.Counts["members"], 300, "family members")
 }
